@@ -19,7 +19,7 @@ RULE = ('designs of strata S1, S1x, S2, S3, S4, S5, S6 (quick: stratified core +
 ASSUMPTIONS = ['reference model vt/ref.py (documented semantics; readings where under-specified)',
                'candidates are well-formed: a blank cell exactly where a derived factor has no level']
 BUDGET_S = {'quick': 90, 'thorough': 600}
-STRATA = ['S1', 'S1L', 'S1p', 'S1x', 'S2', 'S2s', 'S3', 'S4', 'S5', 'S6']
+STRATA = ['S1', 'S1L', 'S1n', 'S1p', 'S1x', 'S2', 'S2s', 'S3', 'S4', 'S5', 'S6']
 QUICK_CAPS = dsw.QUICK_CAPS_BIG
 LIMIT = {'quick': 1500, 'thorough': 20000}
 
